@@ -155,13 +155,19 @@ func solveOne(o *Obligation, script string, idx int, dir string, timeoutMs int, 
 	outs := make([]solveOut, nRuns)
 	got := 0
 	first := -1
+	nDef := 0
 	for got < nRuns {
 		rr := <-ch
 		got++
 		outs[rr.i] = rr.so
-		if definitive(rr.so.result) && first < 0 {
-			first = rr.i
-			if !agree {
+		if definitive(rr.so.result) {
+			nDef++
+			if first < 0 {
+				first = rr.i
+			}
+			// quick: the first definitive answer wins; thorough: wait for a second, independent definitive answer
+			// (agreement or disagreement is then known) or for all configurations to finish
+			if !agree || nDef >= 2 {
 				cancel()
 				break
 			}
